@@ -297,7 +297,7 @@ class Outcome:
 
 class Interp:
     MAX_PATHS = 20000
-    MAX_DEPTH = 12
+    MAX_DEPTH = 40
     MAX_LOOP = 100000
 
     def __init__(self, model: Model, hooks: Optional[Hooks] = None):
@@ -366,6 +366,8 @@ class Interp:
         self._depth += 1
         if self._depth > self.MAX_DEPTH:
             self._depth -= 1
+            if getattr(self, 'recursion_raises', True):
+                raise PathRaise('RecursionError', node)
             return TOP
         try:
             env = Env(clo.module, clo.cls, clo.env)
@@ -1228,6 +1230,9 @@ class Interp:
                         return True
                     if args[0].ci and (args[0].ci.find_method(args[1]) or args[0].ci.find_attr(args[1])):
                         return True
+                    if args[0].ci is not None and not args[0].ci.external_bases and \
+                            all(not c.external_bases for c in args[0].ci.mro):
+                        return False        # fields of abstract instances are tracked exactly
                     return TOP
                 return TOP
             return TOP
